@@ -140,3 +140,405 @@ Lemma Inv_init : Inv init.
 Proof.
   unfold Inv, init; cbn. constructor; cbn; intros; try congruence; try discriminate; auto.
 Qed.
+
+(* ------------------------------------------------------------------ *)
+(* Preservation per primitive update.                                  *)
+
+Ltac dtid t0 t := destruct (N.eqb_spec t0 t); [subst t0|].
+
+Lemma upd_eq {V} (f : N -> V) k v x : upd f k v x = if x =? k then v else f x.
+Proof. reflexivity. Qed.
+
+(* the thread [t] moves to [o'] (or ends), nothing else changes *)
+Lemma P_thread cs gc gcl gs hb th ne ni t o' :
+  InvC cs gc gcl gs hb th ne ni ->
+  th t <> None ->
+  thread_ok gs t o' ->
+  (forall g c, gs g = GRes t c -> holds_resv o' g c /\ (hub_added o' -> hb c = Some g)) ->
+  (forall g c, gs g = GTear t c -> tearing o' g c /\ (hb c = Some g -> pre_hubrem o' g)) ->
+  InvC cs gc gcl gs hb (upd th t o') ne ni.
+Proof.
+  intros I Ht Hok Hres Htear. destruct I. constructor; eauto.
+  - intros t0. rewrite upd_eq. dtid t0 t; eauto.
+  - intros g t0 c Hg. destruct (i_res0 g t0 c Hg) as (A & B & C). repeat split; eauto.
+    rewrite upd_eq. dtid t0 t; eauto. apply (Hres g c Hg).
+  - intros g t0 c Hg. rewrite upd_eq. dtid t0 t; eauto. apply (Htear g c Hg).
+  - intros t0. rewrite upd_eq. dtid t0 t; eauto.
+  - intros c g Hh. specialize (i_hub0 c g Hh). destruct (gs g) eqn:Eg; eauto.
+    destruct i_hub0 as [-> P]. split; eauto. rewrite upd_eq. dtid t0 t; eauto.
+    apply (Htear g c Eg); eauto.
+  - intros g t0 c Hg. rewrite upd_eq. dtid t0 t; eauto. intros Ha. apply (Hres g c Hg); eauto.
+Qed.
+
+(* a new thread at a fresh tid *)
+Lemma P_spawn cs gc gcl gs hb th ne ni ne' ni' t x :
+  InvC cs gc gcl gs hb th ne ni ->
+  th t = None -> ne <= ne' -> ni <= ni' ->
+  tid_ok ne' ni' t ->
+  thread_ok gs t (Some x) ->
+  InvC cs gc gcl gs hb (upd th t (Some x)) ne' ni'.
+Proof.
+  intros I Ht Hne Hni Htid Hok. destruct I. constructor; eauto.
+  - intros t0. rewrite upd_eq. dtid t0 t; eauto. intros H. specialize (i_tids0 t0 H).
+    destruct i_tids0 as [(k & -> & Hk)|(k & -> & Hk)]; [left|right]; exists k; split; auto; lia.
+  - intros g t0 c Hg. destruct (i_res0 g t0 c Hg) as (A & B & C). repeat split; eauto.
+    rewrite upd_eq. dtid t0 t; eauto. rewrite Ht in C. destruct C.
+  - intros g t0 c Hg. specialize (i_tear0 g t0 c Hg). rewrite upd_eq. dtid t0 t; eauto.
+    rewrite Ht in i_tear0. destruct i_tear0.
+  - intros t0. rewrite upd_eq. dtid t0 t; eauto.
+  - intros c g Hh. specialize (i_hub0 c g Hh). destruct (gs g) eqn:Eg; eauto.
+    destruct i_hub0 as [-> P]. split; eauto. rewrite upd_eq. dtid t0 t; eauto.
+    rewrite Ht in P. destruct P.
+  - intros g t0 c Hg. rewrite upd_eq. dtid t0 t; eauto. specialize (i_res0 g t c Hg).
+    rewrite Ht in i_res0. destruct i_res0 as (_ & _ & []).
+Qed.
+
+(* bounds on fresh tids *)
+Lemma fresh_ext cs gc gcl gs hb th ne ni :
+  InvC cs gc gcl gs hb th ne ni -> th (2 * ne) = None.
+Proof.
+  intros I. destruct (th (2 * ne)) eqn:E; eauto. exfalso.
+  assert (H : th (2 * ne) <> None) by congruence.
+  destruct (i_tids _ _ _ _ _ _ _ _ I _ H) as [(k & Hk & Hl)|(k & Hk & Hl)]; lia.
+Qed.
+Lemma fresh_int cs gc gcl gs hb th ne ni :
+  InvC cs gc gcl gs hb th ne ni -> th (2 * ni + 1) = None.
+Proof.
+  intros I. destruct (th (2 * ni + 1)) eqn:E; eauto. exfalso.
+  assert (H : th (2 * ni + 1) <> None) by congruence.
+  destruct (i_tids _ _ _ _ _ _ _ _ I _ H) as [(k & Hk & Hl)|(k & Hk & Hl)]; lia.
+Qed.
+
+(* two entries of the channel map with the same channel carry one generation *)
+Lemma res_unique cs gc gcl gs hb th ne ni g g' t t' c :
+  InvC cs gc gcl gs hb th ne ni -> gs g = GRes t c -> gs g' = GRes t' c -> g = g'.
+Proof.
+  intros I H H'. destruct (i_res _ _ _ _ _ _ _ _ I _ _ _ H) as ((x & Lx & Gx & _) & _).
+  destruct (i_res _ _ _ _ _ _ _ _ I _ _ _ H') as ((x' & Lx' & Gx' & _) & _). congruence.
+Qed.
+Lemma res_live_excl cs gc gcl gs hb th ne ni g g' t c :
+  InvC cs gc gcl gs hb th ne ni -> gs g = GRes t c -> gs g' = GLive c -> False.
+Proof.
+  intros I H H'. destruct (i_res _ _ _ _ _ _ _ _ I _ _ _ H) as ((x & Lx & Gx & Sx) & _).
+  destruct (i_live _ _ _ _ _ _ _ _ I _ _ H') as (x' & Lx' & Gx' & Sx'). congruence.
+Qed.
+Lemma live_unique cs gc gcl gs hb th ne ni g g' c :
+  InvC cs gc gcl gs hb th ne ni -> gs g = GLive c -> gs g' = GLive c -> g = g'.
+Proof.
+  intros I H H'. destruct (i_live _ _ _ _ _ _ _ _ I _ _ H) as (x & Lx & Gx & Sx).
+  destruct (i_live _ _ _ _ _ _ _ _ I _ _ H') as (x' & Lx' & Gx' & Sx'). congruence.
+Qed.
+
+(* hub.addSub for a generation whose reservation is held *)
+Lemma P_hubset cs gc gcl gs hb th ne ni g t c :
+  InvC cs gc gcl gs hb th ne ni ->
+  gs g = GRes t c ->
+  InvC cs gc gcl gs (upd hb c (Some g)) th ne ni.
+Proof.
+  intros I Hg. pose proof I as I0. destruct I. constructor; eauto.
+  - intros c0 g0. rewrite upd_eq. destruct (N.eqb_spec c0 c); subst; [|apply i_hub0].
+    intros [= <-]. rewrite Hg. reflexivity.
+  - intros g0 c0 H0. rewrite upd_eq. destruct (N.eqb_spec c0 c); subst; eauto.
+    exfalso. eapply res_live_excl; eauto.
+  - intros g0 t0 c0 H0 Ha. rewrite upd_eq. destruct (N.eqb_spec c0 c); subst; eauto.
+    f_equal. eapply res_unique; eauto.
+Qed.
+
+(* gen-matched hub removal of a generation that is neither live nor a hub-added reservation *)
+Lemma P_hubclear cs gc gcl gs hb th ne ni g c :
+  InvC cs gc gcl gs hb th ne ni ->
+  hb c = Some g ->
+  (forall c', gs g <> GLive c') ->
+  (forall t c', gs g = GRes t c' -> ~ hub_added (th t)) ->
+  InvC cs gc gcl gs (upd hb c None) th ne ni.
+Proof.
+  intros I Hh NL NR. pose proof I as I0. destruct I. constructor; eauto.
+  - intros c0 g0. rewrite upd_eq. destruct (N.eqb_spec c0 c); subst; [discriminate|apply i_hub0].
+  - intros g0 c0 H0. rewrite upd_eq. destruct (N.eqb_spec c0 c); subst; eauto.
+    exfalso. pose proof (i_live_hub0 _ _ H0) as E. rewrite Hh in E. inv E. eapply NL; eauto.
+  - intros g0 t0 c0 H0 Ha. rewrite upd_eq. destruct (N.eqb_spec c0 c); subst; eauto.
+    exfalso. pose proof (i_res_hub0 _ _ _ H0 Ha) as E. rewrite Hh in E. inv E. eapply NR; eauto.
+Qed.
+
+(* close(subscribingCh) of a generation that is past its commit point *)
+Lemma P_gcl cs gc gcl gs hb th ne ni g :
+  InvC cs gc gcl gs hb th ne ni ->
+  post_commit (gs g) ->
+  InvC cs gc (upd gcl g true) gs hb th ne ni.
+Proof.
+  intros I Hp. destruct I. constructor; eauto.
+  - intros g0. rewrite upd_eq. destruct (N.eqb_spec g0 g); subst; eauto.
+  - intros g0 t0 c0 H0. destruct (i_res0 _ _ _ H0) as (A & B & C). repeat split; eauto.
+    rewrite upd_eq. destruct (N.eqb_spec g0 g); subst; eauto. rewrite H0 in Hp. destruct Hp.
+Qed.
+
+(* --- thread-local facts --- *)
+Lemma resv_not_tearing o g c g' c' : holds_resv o g c -> tearing o g' c' -> False.
+Proof.
+  destruct o as [[a| | | | |]|]; cbn; try tauto.
+  unfold att_resv. destruct (a_pc a); tauto.
+Qed.
+Lemma resv_not_pre o g c g' : holds_resv o g c -> pre_hubrem o g' -> False.
+Proof.
+  destruct o as [[a| | | | |]|]; cbn; try tauto.
+  unfold att_resv. destruct (a_pc a); tauto.
+Qed.
+Lemma resv_own o g c g' c' : holds_resv o g c -> holds_resv o g' c' -> g = g' /\ c = c'.
+Proof.
+  destruct o as [[a| | | | |]|]; cbn; try tauto.
+  unfold att_resv. intuition congruence.
+Qed.
+Lemma hub_added_not_pre o g : hub_added o -> pre_hubrem o g -> False.
+Proof.
+  destruct o as [[a| | | | |]|]; cbn; try tauto. destruct (a_pc a); tauto.
+Qed.
+Lemma hub_added_not_tearing o g c : hub_added o -> tearing o g c -> False.
+Proof.
+  destruct o as [[a| | | | |]|]; cbn; try tauto. destruct (a_pc a); tauto.
+Qed.
+
+(* thread_ok only reads gs at generations the thread refers to *)
+Lemma thread_ok_upd gs g v t0 o :
+  thread_ok gs t0 o ->
+  (forall c, gs g <> GRes t0 c) -> (forall c, gs g <> GTear t0 c) -> gs g <> GDead ->
+  (post_commit (gs g) -> post_commit v) ->
+  thread_ok (upd gs g v) t0 o.
+Proof.
+  intros H NR NT ND PC.
+  assert (E : forall x y, gs x = y -> (forall c, y <> GRes t0 c \/ True) ->
+              (x = g -> False) -> upd gs g v x = y).
+  { intros x y Hx _ Hne. rewrite upd_eq. destruct (N.eqb_spec x g); [tauto|auto]. }
+  assert (ER : forall x c, gs x = GRes t0 c -> upd gs g v x = GRes t0 c).
+  { intros x c Hx. rewrite upd_eq. destruct (N.eqb_spec x g); subst; auto. exfalso; eapply NR; eauto. }
+  assert (ET : forall x c, gs x = GTear t0 c -> upd gs g v x = GTear t0 c).
+  { intros x c Hx. rewrite upd_eq. destruct (N.eqb_spec x g); subst; auto. exfalso; eapply NT; eauto. }
+  assert (ED : forall x, gs x = GDead -> upd gs g v x = GDead).
+  { intros x Hx. rewrite upd_eq. destruct (N.eqb_spec x g); subst; auto. tauto. }
+  assert (EP : forall x, post_commit (gs x) -> post_commit (upd gs g v x)).
+  { intros x Hx. rewrite upd_eq. destruct (N.eqb_spec x g); subst; auto. }
+  assert (UO : forall u, u_ok gs t0 u -> u_ok (upd gs g v) t0 u).
+  { intros u. unfold u_ok. destruct (u_pc u); auto. }
+  destruct o as [[a|u|k| | |]|]; cbn in *; auto.
+  - destruct (a_pc a); try destruct (a_owned a); intuition auto.
+  - destruct (k_cur k); intuition auto.
+Qed.
+
+Lemma fresh_none cs gc gcl gs hb th ne ni :
+  InvC cs gc gcl gs hb th ne ni -> gs (gc + 1) = GNone /\ gcl (gc + 1) = false.
+Proof.
+  intros I. assert (G : gs (gc + 1) = GNone).
+  { destruct (gs (gc + 1)) eqn:E; auto; exfalso;
+      assert (H : gs (gc + 1) <> GNone) by congruence;
+      pose proof (i_bound _ _ _ _ _ _ _ _ I _ H); lia. }
+  split; auto. destruct (gcl (gc + 1)) eqn:E; auto.
+  pose proof (i_gcl _ _ _ _ _ _ _ _ I _ E) as P. rewrite G in P. destruct P.
+Qed.
+
+Lemma chans_gen_state cs gc gcl gs hb th ne ni c x :
+  InvC cs gc gcl gs hb th ne ni -> lookup c cs = Some x ->
+  gs (c_gen x) = GLive c \/ exists t, gs (c_gen x) = GRes t c.
+Proof.
+  intros I L. pose proof (i_chans _ _ _ _ _ _ _ _ I _ _ L) as H.
+  destruct (c_sub x); [left; tauto|right; tauto].
+Qed.
+
+(* validateSubscribeRequest / Client.Subscribe install a reservation *)
+Lemma P_reserve cs gc gcl gs hb th ne ni t c a a' :
+  InvC cs gc gcl gs hb th ne ni ->
+  th t = Some (TAtt a) -> a_pc a = PReserve ->
+  lookup c cs = None ->
+  a_own a' = gc + 1 -> a_ch a' = c -> (a_pc a' = PHandler \/ a_pc a' = PGenStamp) ->
+  InvC (insert c (mkCtx (gc + 1) false false true no_opts) cs) (gc + 1) gcl
+       (upd gs (gc + 1) (GRes t c)) hb (upd th t (Some (TAtt a'))) ne ni.
+Proof.
+  intros I Ht Hpc Hl Hown Hch Hpc'. destruct (fresh_none _ _ _ _ _ _ _ _ I) as [FN FG].
+  pose proof I as I0. destruct I.
+  assert (OLD : forall g, gs g <> GNone -> g <> gc + 1) by (intros g H ->; tauto).
+  assert (NOREF : forall g c', holds_resv (th t) g c' -> False) by
+    (intros g c'; rewrite Ht; cbn; unfold att_resv; rewrite Hpc; tauto).
+  assert (NOTEAR : forall g c', tearing (th t) g c' -> False) by
+    (intros g c'; rewrite Ht; cbn; rewrite Hpc; tauto).
+  constructor.
+  - intros g. rewrite upd_eq. destruct (N.eqb_spec g (gc + 1)); [subst g; lia|].
+    intros H. specialize (i_bound0 g H). lia.
+  - intros g H. rewrite upd_eq. destruct (N.eqb_spec g (gc + 1)); [subst g; congruence|auto].
+  - intros t0. rewrite upd_eq. dtid t0 t; auto. intros _. apply i_tids0. congruence.
+  - intros c0 x. rewrite lookup_insert. destruct (N.eqb_spec c0 c); [subst c0|].
+    + intros [= <-]. cbn. rewrite upd_same. eauto.
+    + intros L. pose proof (i_chans0 _ _ L) as H.
+      assert (c_gen x <> gc + 1).
+      { apply OLD. destruct (c_sub x); [destruct H as [E _]|destruct H as (_ & _ & t1 & E)]; congruence. }
+      rewrite upd_other; auto.
+  - intros g c0. rewrite upd_eq. destruct (N.eqb_spec g (gc + 1)); [subst g; discriminate|].
+    intros H. destruct (i_live0 _ _ H) as (x & L & Gx & Sx). exists x. repeat split; auto.
+    rewrite lookup_insert. destruct (N.eqb_spec c0 c); [subst c0; congruence|auto].
+  - intros g t0 c0. rewrite upd_eq. destruct (N.eqb_spec g (gc + 1)); [subst g|].
+    + intros [= <- <-]. repeat split; auto.
+      * eexists. rewrite lookup_insert, N.eqb_refl. repeat split; reflexivity.
+      * rewrite upd_same. cbn. unfold att_resv. repeat split; auto. destruct Hpc' as [->| ->]; auto.
+    + intros H. destruct (i_res0 _ _ _ H) as ((x & L & Gx & Sx) & B & C). repeat split; auto.
+      * exists x. repeat split; auto. rewrite lookup_insert.
+        destruct (N.eqb_spec c0 c); [subst c0; congruence|auto].
+      * rewrite upd_eq. dtid t0 t; [exfalso; eauto|eauto].
+  - intros g t0 c0. rewrite upd_eq. destruct (N.eqb_spec g (gc + 1)); [subst g; discriminate|].
+    intros H. specialize (i_tear0 _ _ _ H). rewrite upd_eq. dtid t0 t; [exfalso; eauto|eauto].
+  - intros t0. rewrite upd_eq. dtid t0 t.
+    + cbn. destruct Hpc' as [->| ->]; rewrite Hown, Hch, upd_same; reflexivity.
+    + apply thread_ok_upd; auto; rewrite FN; try congruence. cbn; tauto.
+  - intros c0 g Hh. specialize (i_hub0 _ _ Hh).
+    assert (g <> gc + 1) by (apply OLD; destruct (gs g); congruence || tauto).
+    rewrite upd_other; auto. destruct (gs g) eqn:Eg; auto. destruct i_hub0 as [-> P]. split; auto.
+    rewrite upd_eq. dtid t0 t; auto. exfalso. rewrite Ht in P. cbn in P. rewrite Hpc in P. auto.
+  - intros g c0. rewrite upd_eq. destruct (N.eqb_spec g (gc + 1)); [subst g; discriminate|auto].
+  - intros g t0 c0. rewrite upd_eq. destruct (N.eqb_spec g (gc + 1)); [subst g|].
+    + intros [= <- <-]. rewrite upd_same. cbn. destruct Hpc' as [->| ->]; tauto.
+    + intros H. rewrite upd_eq. dtid t0 t; eauto.
+      destruct (i_res0 _ _ _ H) as (_ & _ & C). exfalso; eauto.
+Qed.
+
+(* commitSubscription installs the context *)
+Lemma P_commit cs gc gcl gs hb th ne ni t c g x' o' :
+  InvC cs gc gcl gs hb th ne ni ->
+  gs g = GRes t c -> hub_added (th t) ->
+  c_gen x' = g -> c_sub x' = true -> c_gate x' = false ->
+  thread_ok (upd gs g (GLive c)) t o' ->
+  (forall g' c', ~ holds_resv o' g' c') -> (forall g' c', ~ tearing o' g' c') ->
+  InvC (insert c x' cs) gc gcl (upd gs g (GLive c)) hb (upd th t o') ne ni.
+Proof.
+  intros I Hg Hadd Gx' Sx' Tx' Hok NR NT. pose proof I as I0. destruct I.
+  destruct (i_res0 _ _ _ Hg) as ((x & L & Gx & Sx) & Bg & Cg).
+  assert (OTHER : forall g' c', g' <> g -> gs g' = GRes t c' -> False).
+  { intros g' c' Hne H'. destruct (i_res0 _ _ _ H') as (_ & _ & C').
+    destruct (resv_own _ _ _ _ _ Cg C'). congruence. }
+  assert (NTEAR : forall g' c', gs g' = GTear t c' -> False).
+  { intros g' c' H'. eapply resv_not_tearing; eauto. }
+  assert (Ht : th t <> None) by (destruct (th t); [congruence|destruct Cg]).
+  constructor.
+  - intros g0. rewrite upd_eq. destruct (N.eqb_spec g0 g); [subst g0|auto].
+    intros _. apply i_bound0. congruence.
+  - intros g0 H. rewrite upd_eq. destruct (N.eqb_spec g0 g); [cbn; auto|auto].
+  - intros t0. rewrite upd_eq. dtid t0 t; auto.
+  - intros c0 x0. rewrite lookup_insert. destruct (N.eqb_spec c0 c); [subst c0|].
+    + intros [= <-]. rewrite Sx', Gx', upd_same. auto.
+    + intros L0. pose proof (i_chans0 _ _ L0) as H.
+      assert (c_gen x0 <> g).
+      { intros E. destruct (c_sub x0); [destruct H as [E' _]|destruct H as (_ & _ & t1 & E')];
+          rewrite E in E'; congruence. }
+      rewrite upd_other; auto.
+  - intros g0 c0. rewrite upd_eq. destruct (N.eqb_spec g0 g); [subst g0|].
+    + intros [= <-]. exists x'. rewrite lookup_insert, N.eqb_refl. auto.
+    + intros H. destruct (i_live0 _ _ H) as (x0 & L0 & G0 & S0). exists x0. repeat split; auto.
+      rewrite lookup_insert. destruct (N.eqb_spec c0 c); [subst c0; congruence|auto].
+  - intros g0 t0 c0. rewrite upd_eq. destruct (N.eqb_spec g0 g); [discriminate|].
+    intros H. destruct (i_res0 _ _ _ H) as ((x0 & L0 & G0 & S0) & B & C). repeat split; auto.
+    + exists x0. repeat split; auto. rewrite lookup_insert.
+      destruct (N.eqb_spec c0 c); [subst c0; congruence|auto].
+    + rewrite upd_eq. dtid t0 t; auto. exfalso; eauto.
+  - intros g0 t0 c0. rewrite upd_eq. destruct (N.eqb_spec g0 g); [discriminate|].
+    intros H. rewrite upd_eq. dtid t0 t; [exfalso; eauto|auto].
+  - intros t0. rewrite upd_eq. dtid t0 t; auto.
+    apply thread_ok_upd; auto; rewrite Hg; try congruence. cbn; tauto.
+  - intros c0 g0 Hh. specialize (i_hub0 _ _ Hh). rewrite upd_eq.
+    destruct (N.eqb_spec g0 g); [subst g0|].
+    + rewrite Hg in i_hub0. auto.
+    + destruct (gs g0) eqn:Eg; auto. destruct i_hub0 as [-> P]. split; auto.
+      rewrite upd_eq. dtid t0 t; auto. exfalso; eauto.
+  - intros g0 c0. rewrite upd_eq. destruct (N.eqb_spec g0 g); [subst g0|auto].
+    intros [= <-]. eauto.
+  - intros g0 t0 c0. rewrite upd_eq. destruct (N.eqb_spec g0 g); [discriminate|].
+    intros H. rewrite upd_eq. dtid t0 t; [exfalso; eauto|eauto].
+Qed.
+
+(* the context of generation g is removed from c.channels by thread t, which now owns the teardown *)
+Lemma P_delete cs gc gcl gs hb th ne ni t c g x o' :
+  InvC cs gc gcl gs hb th ne ni ->
+  lookup c cs = Some x -> c_gen x = g ->
+  (gs g = GLive c \/ gs g = GRes t c) ->
+  th t <> None ->
+  thread_ok (upd gs g (GTear t c)) t o' -> tearing o' g c -> pre_hubrem o' g ->
+  (forall g' c', g' <> g -> gs g' = GRes t c' -> False) ->
+  (forall g' c', gs g' = GTear t c' -> False) ->
+  InvC (remove c cs) gc gcl (upd gs g (GTear t c)) hb (upd th t o') ne ni.
+Proof.
+  intros I L Gx Hg Ht Hok Htear Hpre NR NT. pose proof I as I0. destruct I.
+  assert (NN : gs g <> GNone) by (destruct Hg as [E|E]; rewrite E; congruence).
+  assert (ONLY : forall c0 x0, lookup c0 cs = Some x0 -> c_gen x0 = g -> c0 = c).
+  { intros c0 x0 L0 G0. destruct (chans_gen_state _ _ _ _ _ _ _ _ _ _ I0 L0) as [E|(t1 & E)];
+      rewrite G0 in E; destruct Hg as [E'|E']; congruence. }
+  constructor.
+  - intros g0. rewrite upd_eq. destruct (N.eqb_spec g0 g); [subst g0; auto|auto].
+  - intros g0 H. rewrite upd_eq. destruct (N.eqb_spec g0 g); [cbn; auto|auto].
+  - intros t0. rewrite upd_eq. dtid t0 t; auto.
+  - intros c0 x0. rewrite lookup_remove. destruct (N.eqb_spec c0 c); [discriminate|].
+    intros L0. pose proof (i_chans0 _ _ L0) as H.
+    assert (c_gen x0 <> g) by (intros E; apply n; eauto).
+    rewrite upd_other; auto.
+  - intros g0 c0. rewrite upd_eq. destruct (N.eqb_spec g0 g); [discriminate|].
+    intros H. destruct (i_live0 _ _ H) as (x0 & L0 & G0 & S0). exists x0. repeat split; auto.
+    rewrite lookup_remove. destruct (N.eqb_spec c0 c); [subst c0; congruence|auto].
+  - intros g0 t0 c0. rewrite upd_eq. destruct (N.eqb_spec g0 g); [discriminate|].
+    intros H. destruct (i_res0 _ _ _ H) as ((x0 & L0 & G0 & S0) & B & C). repeat split; auto.
+    + exists x0. repeat split; auto. rewrite lookup_remove.
+      destruct (N.eqb_spec c0 c); [subst c0; congruence|auto].
+    + rewrite upd_eq. dtid t0 t; auto. exfalso; eauto.
+  - intros g0 t0 c0. rewrite upd_eq. destruct (N.eqb_spec g0 g); [subst g0|].
+    + intros [= <- <-]. rewrite upd_same. auto.
+    + intros H. rewrite upd_eq. dtid t0 t; [exfalso; eauto|auto].
+  - intros t0. rewrite upd_eq. dtid t0 t; auto.
+    apply thread_ok_upd; auto; destruct Hg as [E|E]; rewrite E; try congruence; cbn; auto.
+  - intros c0 g0 Hh. specialize (i_hub0 _ _ Hh). rewrite upd_eq.
+    destruct (N.eqb_spec g0 g); [subst g0|].
+    + rewrite upd_same. split; auto. destruct Hg as [E|E]; rewrite E in i_hub0; auto.
+    + destruct (gs g0) eqn:Eg; auto. destruct i_hub0 as [-> P]. split; auto.
+      rewrite upd_eq. dtid t0 t; auto. exfalso; eauto.
+  - intros g0 c0. rewrite upd_eq. destruct (N.eqb_spec g0 g); [discriminate|auto].
+  - intros g0 t0 c0. rewrite upd_eq. destruct (N.eqb_spec g0 g); [discriminate|].
+    intros H. rewrite upd_eq. dtid t0 t; [exfalso; eauto|eauto].
+Qed.
+
+(* the teardown of generation g has passed its hub removal and ends *)
+Lemma P_dead cs gc gcl gs hb th ne ni t c g o' :
+  InvC cs gc gcl gs hb th ne ni ->
+  gs g = GTear t c -> ~ pre_hubrem (th t) g ->
+  thread_ok (upd gs g GDead) t o' ->
+  (forall g' c', ~ holds_resv o' g' c') -> (forall g' c', ~ tearing o' g' c') ->
+  InvC cs gc gcl (upd gs g GDead) hb (upd th t o') ne ni.
+Proof.
+  intros I Hg Hnp Hok NR NT. pose proof I as I0. destruct I.
+  pose proof (i_tear0 _ _ _ Hg) as Tg.
+  assert (Ht : th t <> None) by (destruct (th t); [congruence|destruct Tg]).
+  assert (NORES : forall g' c', gs g' = GRes t c' -> False).
+  { intros g' c' H'. destruct (i_res0 _ _ _ H') as (_ & _ & C'). eapply resv_not_tearing; eauto. }
+  assert (ONE : forall g' c', gs g' = GTear t c' -> g' = g).
+  { intros g' c' H'. pose proof (i_tear0 _ _ _ H') as T'. clear - Tg T'.
+    destruct (th t) as [[a|u|k| | |]|]; cbn in *; try tauto.
+    - destruct (a_pc a); intuition congruence.
+    - unfold u_tear in *. intuition congruence.
+    - destruct (k_cur k); try tauto. unfold u_tear in *. intuition congruence. }
+  constructor.
+  - intros g0. rewrite upd_eq. destruct (N.eqb_spec g0 g); [subst g0|auto].
+    intros _. apply i_bound0. congruence.
+  - intros g0 H. rewrite upd_eq. destruct (N.eqb_spec g0 g); [cbn; auto|auto].
+  - intros t0. rewrite upd_eq. dtid t0 t; auto.
+  - intros c0 x0 L0. pose proof (i_chans0 _ _ L0) as H.
+    assert (c_gen x0 <> g).
+    { intros E. destruct (c_sub x0); [destruct H as [E' _]|destruct H as (_ & _ & t1 & E')];
+        rewrite E in E'; congruence. }
+    rewrite upd_other; auto.
+  - intros g0 c0. rewrite upd_eq. destruct (N.eqb_spec g0 g); [discriminate|auto].
+  - intros g0 t0 c0. rewrite upd_eq. destruct (N.eqb_spec g0 g); [discriminate|].
+    intros H. destruct (i_res0 _ _ _ H) as (A & B & C). repeat split; auto.
+    rewrite upd_eq. dtid t0 t; auto. exfalso; eauto.
+  - intros g0 t0 c0. rewrite upd_eq. destruct (N.eqb_spec g0 g); [discriminate|].
+    intros H. rewrite upd_eq. dtid t0 t; auto. exfalso. apply n. eauto.
+  - intros t0. rewrite upd_eq. dtid t0 t; auto.
+    apply thread_ok_upd; auto; rewrite Hg; try congruence. cbn; auto.
+  - intros c0 g0 Hh. specialize (i_hub0 _ _ Hh). rewrite upd_eq.
+    destruct (N.eqb_spec g0 g); [subst g0|].
+    + rewrite Hg in i_hub0. tauto.
+    + destruct (gs g0) eqn:Eg; auto. destruct i_hub0 as [-> P]. split; auto.
+      rewrite upd_eq. dtid t0 t; auto. exfalso. apply n. eauto.
+  - intros g0 c0. rewrite upd_eq. destruct (N.eqb_spec g0 g); [discriminate|auto].
+  - intros g0 t0 c0. rewrite upd_eq. destruct (N.eqb_spec g0 g); [discriminate|].
+    intros H. rewrite upd_eq. dtid t0 t; [exfalso; eauto|eauto].
+Qed.
